@@ -68,6 +68,47 @@ theorem manifest_perm_invariant {κ π : Type} {le : κ → κ → Bool} (h : Li
   refine isort_key_eq_of_perm Prod.fst h (hp.filter _) ?_
   exact List.Nodup.sublist ((List.filter_sublist).map Prod.fst) hn
 
+/-- The same for the page's asset SET as the code holds it: members differ in their file ids (set identity), the
+spelling under which the page refers to them may coincide; the order written to the page's document does not depend
+on how the set is enumerated. -/
+theorem manifest_set_invariant {π : Type} {enum₁ enum₂ : List (Asset π)} (hp : enum₁.Perm enum₂)
+    (hn : (enum₁.map (fun a => a.2.1)).Nodup) :
+    manifestOfSet enum₁ = manifestOfSet enum₂ := by
+  unfold manifestOfSet
+  refine manifest_perm_invariant pathLe_linOrd (hp.map _) ?_
+  rw [List.map_map]
+  have : ∀ l : List (Asset π), (l.map (fun a => a.2.1)).Nodup →
+      (l.map (Prod.fst ∘ fun a : Asset π => (assetSortKey a.1 a.2.1, a.2.2.1, a.2.2.2))).Nodup := by
+    intro l
+    induction l with
+    | nil => intro _; simp
+    | cons a l ih =>
+      intro h
+      rw [List.map_cons, List.nodup_cons] at h
+      rw [List.map_cons, List.nodup_cons]
+      refine ⟨?_, ih h.2⟩
+      intro hm
+      apply h.1
+      rcases List.mem_map.mp hm with ⟨b, hb, hEq⟩
+      refine List.mem_map.mpr ⟨b, hb, ?_⟩
+      simp only [Function.comp, assetSortKey] at hEq
+      injection hEq with _ h2
+      injection h2
+  exact this _ hn
+
+/-- The code before the repair sorted by the spelling alone: two files under one spelling came out in the order the
+set happened to enumerate them (string hashing). -/
+theorem manifest_key_only_refuted :
+    ∃ e₁ e₂ : List (Asset Nat), e₁.Perm e₂ ∧ (e₁.map (fun a => a.2.1)).Nodup ∧
+      manifestOfSetKeyOnly e₁ ≠ manifestOfSetKeyOnly e₂ :=
+  ⟨[([112], [97, 47, 112], true, 1), ([112], [98, 47, 112], true, 2)],
+   [([112], [98, 47, 112], true, 2), ([112], [97, 47, 112], true, 1)],
+   List.Perm.swap _ _ _, by decide, by decide⟩
+
+example : manifestOfSet [([112], [97, 47, 112], true, 1), ([112], [98, 47, 112], true, 2)]
+        = manifestOfSet [([112], [98, 47, 112], true, 2), ([112], [97, 47, 112], true, 1)] :=
+  manifest_set_invariant (List.Perm.swap _ _ _) (by decide)
+
 /-- The `diagnostics/<file>.bson` entries are written in an order that does not depend on the
 order in which the files reported (each file reporting once). -/
 theorem manifest_diagnostics_perm_invariant {κ δ : Type} [DecidableEq κ] {le : κ → κ → Bool} (h : LinOrd le)
